@@ -275,6 +275,31 @@ def pricing_grid():
     return out
 
 
+def deposit_grid():
+    """C14 / C03: an available binding at deposit D; one update raises the price (new minimum M = price x multiple)
+    and tops the deposit up by T, for T at every boundary of the window in which D + T is still below M — in
+    particular (M - D) / 2, where a doubly counted top-up would pass — and the same with enable and bind."""
+    out = []
+    D, mult = 10000, 200
+    for newp in (60, 51, 100):
+        M = newp * mult
+        gap = M - D
+        for T in sorted({0, 1, gap // 2 - 1, gap // 2, gap // 2 + 1, gap - 1, gap, gap + 1}):
+            for how in ("update", "disable-update-enable"):
+                ops = [genesis(), f"fund acct={O1} amt=10000000", f"define name=svc author={O1} schema=ok",
+                       f"bind svc=svc prov={P1} owner={O1} dep={D} price=50stake promT=- promV=- qos=1"]
+                dep = "-" if T == 0 else str(T)
+                if how == "update":
+                    ops.append(f"update svc=svc prov={P1} owner={O1} dep={dep} price={newp}stake promT=- promV=- qos=0")
+                else:
+                    ops += [f"disable svc=svc prov={P1} owner={O1}",
+                            f"update svc=svc prov={P1} owner={O1} dep=- price={newp}stake promT=- promV=- qos=0",
+                            f"enable svc=svc prov={P1} owner={O1} dep={dep}"]
+                ops.append("endblock dt=5000000000")
+                out.append((f"grid:deposit:{how}:p{newp}:T{T}", ops))
+    return out
+
+
 def boundary_grid():
     """C20: boundary-shaped messages that pass (or just fail) stateless validation, each sent once to the handler in a
     state with a binding, a running repeated context and a pending request: empty coin lists, zero and maximal numeric
@@ -408,11 +433,12 @@ GRIDS = {
     "pricing": pricing_grid,
     "boundary": boundary_grid,
     "genesis": genesis_grid,
+    "deposit": deposit_grid,
 }
 
 # which grids each property runs
 FOR_PROPERTY = {
-    "C01": ["respond", "pricing"], "C02": ["respond", "lifecycle", "pricing"], "C04": ["respond"], "C08": ["respond"],
+    "C01": ["respond", "pricing"], "C02": ["respond", "lifecycle", "pricing"], "C04": ["respond"], "C08": ["respond", "module"], "C14": ["deposit"], "C03": ["deposit"],
     "C09": ["lifecycle"], "C10": ["lifecycle"], "C11": ["lifecycle", "respond"], "C12": ["module", "respond"],
     "C16": ["lifecycle", "respond"], "C06": ["respond", "pricing", "module"], "C18": ["respond", "query"], "C20": ["lifecycle", "boundary"], "C19": ["genesis"],
     "C17": ["query"], "C15": ["query"], "C07": ["pricing", "respond"],
